@@ -300,6 +300,7 @@ func genCase(t *rapid.T) Case {
 			f |= interp.FlagAfterGenesis
 		}
 		l := rapid.SampledFrom([][]byte{{0xac}, {0xad}, {0xae}, {0xaf}, {0x51, 0xae}, {0xac, 0x91}, {0x00, 0xac}, {0x76, 0xac}}).Draw(t, "ss_lock")
+		l = append([]byte{}, l...)
 		p = sgen.Program{Unlock: u, Lock: l, Flags: f, Level: "L6-sigshape"}
 	case 0, 1:
 		p = sgen.RawBytes(t, f, 80)
@@ -318,6 +319,19 @@ func genCase(t *rapid.T) Case {
 		// sprinkle signature opcodes and hostile constants
 		if rapid.IntRange(0, 2).Draw(t, "sigop") == 0 {
 			p.Lock = append(p.Lock, byte(rapid.IntRange(0xac, 0xaf).Draw(t, "sig")))
+		}
+	}
+	// a top-level OP_RETURN followed by a degenerate tail (nothing, a lone push opcode, a push header
+	// without its data, one or two stray bytes) behind whatever the script does
+	if rapid.IntRange(0, 9).Draw(t, "ret_tail") == 0 {
+		tail := rapid.SampledFrom([][]byte{{0x6a}, {0x6a, 0x01}, {0x6a, 0x4c}, {0x6a, 0x4d, 0x01}, {0x6a, 0x4e, 0x01, 0x00}, {0x6a, 0x00}, {0x6a, 0x01, 0x01}, {0x6a, 0x02, 0x01}, {0x6a, 0x4b}, {0x6a, 0xab}}).Draw(t, "ret_tail_v")
+		if rapid.Bool().Draw(t, "ret_tail_unlock") {
+			p.Unlock = append(append([]byte{}, p.Unlock...), tail...)
+		} else {
+			p.Lock = append(append([]byte{}, p.Lock...), tail...)
+		}
+		if rapid.IntRange(0, 3).Draw(t, "ret_tail_post") != 0 {
+			p.Flags |= interp.FlagAfterGenesis
 		}
 	}
 	c := Case{Unlock: p.Unlock, Lock: p.Lock, Flags: uint32(p.Flags), Level: p.Level,
